@@ -19,7 +19,8 @@ MANIFEST = dict(
 
 
 def extras(ctx):
-    """Histories the model does not enumerate: configured start numbers, acceptor role, memory persister."""
+    """Histories the model does not enumerate: configured start numbers, acceptor role, memory persister, a batch
+    whose flush fails on the socket."""
     rng = random.Random(ctx.seed)
     out = []
     for i in range(30 if ctx.quick else 400):
@@ -45,6 +46,14 @@ def extras(ctx):
                 ex.recv("0")
             else:
                 ex.admin("testreq", "Q%d" % k)
+        if i % 3 == 0 and role == "ini":
+            # the counterparty disappears: the flush of a batch fails on the socket after its earlier members have been
+            # numbered and stored; the session reconnects and goes on
+            ex.peerclose()
+            c = rng.randint(2, 4); ex.batch(list(range(nid, nid + c))); nid += c
+            ex.reconnect()
+            ex.logon_exchange()
+            ex.send(nid); nid += 1
         out.append(ex)
     return out
 
